@@ -712,7 +712,6 @@ MFL_FINDINGS = {
     763: [(210, 'C18-MFL-WILDCARD')], 764: [(210, 'C18-MFL-WILDCARD')], 765: [(210, 'C18-MFL-WILDCARD')],
     766: [(210, 'C18-MFL-WILDCARD')],
     71: [(217, 'C18-LET-BYPASSES-VALIDATION')],
-    79: [(221, 'C18-ALLOMETRY-DEFAULT-REF')],
 }
 
 
